@@ -179,7 +179,7 @@ PROPS = {
               " Coalesce chooses its member through one selector in all four operations; the default type-validation handler accepts every value (an int for a float-typed parameter); helper steps never change the piped value in place."
               " Every step of a pipeline is explained/keyed/validated under the options the pipeline was given (none is asked with no options at all); a step parameter wrapped in Logged yields the wrapped value; a step body that enters and leaves a handler context leaves the runtime as it found it (sequential and composed application then agree).",
               "associativity/identity of + over all bracketings (a structural induction, not attempted); transform values",
-              filters={"R-RE": ["Runtime.__exit__", "Runtime.__enter__"], "R-VP": ["Logged"], "R-OA": ["Pipeline", "PartialApplication", "PipelineStep", "EvaluatableArg", "EvaluatableKwargs"], "R-VM": ["labrea.functions", "labrea.pipeline"], "R-HD": ["type-validation"], "R-SO": ["Coalesce"], "R-KC": ["Pipeline", "PartialApplication", "Apply", "FunctionApplication", "EvaluatableArg", "EvaluatableKwargs"],
+              filters={"R-RE": ["Runtime.__exit__", "Runtime.__enter__"], "R-VP": ["Logged"], "R-OA": ["Pipeline", "PartialApplication", "PipelineStep", "EvaluatableArg", "EvaluatableKwargs", "Apply", "FunctionApplication"], "R-VM": ["labrea.functions", "labrea.pipeline"], "R-HD": ["type-validation"], "R-SO": ["Coalesce"], "R-KC": ["Pipeline", "PartialApplication", "Apply", "FunctionApplication", "EvaluatableArg", "EvaluatableKwargs"],
                        "R-XA": ["Pipeline", "PartialApplication", "Apply", "FunctionApplication", "EvaluatableArg", "EvaluatableKwargs"],
                        "R-EO": ["Pipeline", "Apply", "PartialApplication", "Value.evaluate"], "R-IS": ["labrea.pipeline.", "labrea.application.", "labrea.types."]}),
     "C14": _p(["R-RE", "R-NR", "R-DF", "R-HI", "R-EX", "R-TI"],
